@@ -231,11 +231,13 @@ pub fn run(report: &mut Report, replay: Option<&Value>) {
     }
     super::replay_corpus(report, &|r, v| replay_e1(r, v));
     let classify = |_: &Failure| None;
-    let hooks = Hooks { classify: &classify, classify_compile: &classify_compile, compile_failure_is_violation: true };
     let mut stats = GenStats::default();
     let mut cfg = CaseCfg::default();
     cfg.delivery_weights = [34, 33, 33];
     cfg.allow_deny = false;
+    let cfg_r = cfg.clone();
+    let rebuild = |tp: &[u8]| build_items(tp, &cfg_r, &mut GenStats::default(), &|_| false, false).into_iter().last();
+    let hooks = Hooks { classify: &classify, classify_compile: &classify_compile, compile_failure_is_violation: true, rebuild: Some(&rebuild) };
     // serde-less twins: abstract types / @oneOf are excluded by construction only while that finding is open
     let serdeless_open = report.findings.is_open("C02", "serdeless-tagged-enum");
     let serdeless_plain = |b: &Base| !serdeless_open || !(b.features.has("abstract") || b.features.has("fragment_on_abstract") || b.features.has("one_of_var") || b.features.has("union") || b.features.has("interface"));
@@ -357,6 +359,7 @@ pub fn run(report: &mut Report, replay: Option<&Value>) {
                 }
             },
             compile_failure_is_violation: true,
+            rebuild: None,
         };
         report.count_extra("probe_cases_path-name-collision", items.len() as u64);
         run_items(report, "c02", &items, &hooks2);
